@@ -180,7 +180,12 @@ ASMJIT_FAVOR_SIZE Error BaseEmitHelper::emit_args_assignment(const FuncFrame& fr
         // The home slot is wider than the argument - sign or zero extend the register first (it's not used for anything
         // else after this move), the same way as an argument that goes from stack to stack or stays in a register.
         if (extend_to_out_type) {
-          ASMJIT_PROPAGATE(emit_arg_move(reg, out.type_id(), reg, cur.type_id()));
+          // The extended value lives in (and is stored from) a register of the destination's width.
+          Reg dst_reg;
+          dst_reg.set_signature_and_id(get_suitable_reg_for_mem_to_mem_move(arch, out.type_id(), cur.type_id()), reg_id);
+
+          ASMJIT_PROPAGATE(emit_arg_move(dst_reg, out.type_id(), reg, cur.type_id()));
+          reg = dst_reg;
         }
       }
       else {
